@@ -39,7 +39,10 @@ RULE = ("1..7 ballots of one of the four types over 2..6 projects, drawn from 1.
         "negative scores, empty ballots); "
         "multiprofile built by conversion (as_multiprofile / profile=), from frozen ballots, or incrementally by "
         "append/extend/update/second conversion, the ballots being handed over as list, tuple, generator expression, "
-        "map(), iter(list) or Profile objects (built by constructor, extend or +=), with shared objects or with "
+        "map(), iter(list), Profile objects of mutable ballots (built by constructor, extend, +=, slice, copy, +), Profile "
+        "objects of FROZEN ballots (ballot_type = the frozen class or validation off; grown, sliced, copied, added, or a "
+        "generator over them), other MultiProfiles, Counters and dicts {ballot: count}, through init= / the positional "
+        "argument / profile= / update() / extend() / +=, with shared objects or with "
         "TEMPORARIES built on the fly; in 60 % of the cases ballots that were already frozen / inserted are EDITED IN "
         "PLACE (same Python object, every mutator of the class: add/update/|=/discard/remove/-=, b[p]=s/update/|=/"
         "setdefault/pop/del/popitem/clear, append) and frozen / extended / converted again, incl. edit-and-revert; "
@@ -282,6 +285,12 @@ ONE_SHOT_INIT_OK = True
 ONE_SHOT_EXTEND_OK = True
 
 
+# container OBJECTS holding frozen ballots that a multiprofile can be built from / updated with
+OBJ_SEQ = ["fprofile", "fprofile_voff", "fprofile_grown", "fprofile_slice", "fprofile_copy", "fprofile_add",
+           "gen_over_fprofile"]
+OBJ_MAP = ["multi", "multi_grown", "counter", "dict"]
+
+
 def _decorate_ops(rng, ops):
     """give every multi-ballot op an iterable kind and, where a list profile is built, the way it is built"""
     for op in ops:
@@ -293,10 +302,19 @@ def _decorate_ops(rng, ops):
         one_shot = kind.split("+")[0] in ONE_SHOT
         if op[0] == "init" and one_shot and not ONE_SHOT_INIT_OK:
             kind = rng.choice(["list", "tuple", "list+fresh"])
+        if op[0] in ("init", "extend_frozen", "update_frozen") and rng.random() < 0.55:
+            # the frozen ballots arrive inside a container object: a Profile of frozen ballots (validation off or
+            # ballot_type = the frozen class; grown, sliced, copied, added), another MultiProfile, a Counter / dict
+            pool = OBJ_SEQ + (OBJ_MAP if op[0] != "extend_frozen" else [])
+            kind = rng.choice(pool) + ("+fresh" if rng.random() < 0.2 else "")
+            if op[0] == "update_frozen" and kind.split("+")[0] in OBJ_MAP and rng.random() < 0.5:
+                op[0] = "iadd_frozen"
         del op[2:]
         op.append(kind)
+        if op[0] == "init":
+            op.append(rng.choice(["kw", "pos"]))
         if op[0] in ("conv", "profile", "extend_profile", "extend_conv"):
-            pmode = rng.choice(["ctor", "ctor", "extend", "iadd"])
+            pmode = rng.choice(["ctor", "ctor", "extend", "iadd", "slice", "copy", "add"])
             if pmode == "extend" and one_shot and not ONE_SHOT_EXTEND_OK:
                 pmode = rng.choice(["ctor", "iadd"])
             op.append(pmode)
